@@ -134,6 +134,9 @@ def run(tier):
         rep.check(not mism, "override-agreement", nm, "StrInput::%s disagrees with the provided body for: %s" % (nm, ", ".join(mism[:6])), site=ov.span,
                   detail={"cases": 257, "disagreements": len(mism)})
     rep.floor("character predicates used by the single-character tests", len(preds_used), 5)
+    # (iii'') the bulk operations: one round of the override's loop and of the provided body's loop, tabulated over the unit at the cursor
+    from . import bulkops
+    rep.floor("bulk operations compared", bulkops.check(rep, F), 3)
     # (iii') multi-character tests (document markers, "can a plain scalar go on here"): override vs provided body on every text of up to
     # four characters over the characters either body distinguishes (plus a letter and a two-byte character), by constant folding
     import itertools
